@@ -229,7 +229,7 @@ def cases(draw):
             r["operation_name"] = draw(st.sampled_from(["NoSuchOperation", "Extra1", None]))
             r["text"] = req0["text"] + "\nquery Extra1 { __typename }\nquery Extra2 { __typename }"
         elif kind == "variables":
-            r["variables"] = {k: draw(st.sampled_from([{"zz": 1}, [[["x"]]], "str", 5, None, 1.5, True])) for k in req0["variables"]} or {"v0": 1}
+            r["variables"] = {k: draw(st.sampled_from([{"zz": 1}, [[["x"]]], "str", 5, None, 1.5, True, 10 ** 400, -10 ** 400, float("inf"), 2 ** 53, "1e999", [10 ** 400]])) for k in req0["variables"]} or {"v0": 1}
             if draw(st.booleans()) and r["variables"]:
                 r["variables"].pop(sorted(r["variables"])[0])
         elif kind == "nan":
